@@ -793,6 +793,74 @@ func (g *gen) subBuilds() {
 	g.rep.Count("sub-builds:repeat-and-root")
 }
 
+// rules in different packages that share their local name: the cache key of a
+// rule must cover its package-qualified name, or the second one is taken for a
+// cache hit of the first on a cold cache and never executes
+func (g *gen) sameLocalNames(thorough bool) {
+	b := func(n string, deps ...string) decl { return decl{kind: 'b', name: n, a: deps} }
+	f := func(n string, files []string, incs ...string) decl { return decl{kind: 'f', name: n, a: files, b: incs} }
+	dirs := []string{"a", "b", "common"}
+	srcs := []string{"common/s", "a/s", "b/s"}
+	common := bfile{dir: "common", decls: []decl{b("base"), b("other", "base")}}
+	add := func(tag string, fa, fb []decl, targets []string, extra ...bfile) {
+		for _, ar := range []bool{false, true} {
+			files := append([]bfile{{dir: "a", decls: fa}, {dir: "b", decls: fb}, common}, extra...)
+			ds := dirs
+			for _, e := range extra {
+				ds = append(append([]string{}, ds...), e.dir)
+			}
+			g.add(&wsOp{dirs: ds, files: files, srcs: srcs, targets: targets, ar: ar}, true)
+			g.rep.Count("same-local-name:" + tag)
+		}
+	}
+	// every pair of dependency lists for a/all and b/all x every target subset
+	cands := []string{"s", "/common/base", "/common/s"}
+	if thorough {
+		cands = append(cands, "/common/other")
+	}
+	for ma := 0; ma < 1<<len(cands); ma++ {
+		for mb := 0; mb < 1<<len(cands); mb++ {
+			if ma > mb && ma&1 == 0 && mb&1 == 0 {
+				continue // symmetric (no package-relative dependency)
+			}
+			var da, db []string
+			for i, c := range cands {
+				if ma&(1<<i) != 0 {
+					da = append(da, c)
+				}
+				if mb&(1<<i) != 0 {
+					db = append(db, c)
+				}
+			}
+			for _, t := range subsets([]string{"a/all", "b/all"}) {
+				add("bundles", []decl{b("all", da...)}, []decl{b("all", db...)}, t)
+			}
+		}
+	}
+	// both reached from one target in a third package, directly and through a chain
+	top := bfile{dir: "z", decls: []decl{b("top", "/a/all", "/b/all"), b("chain", "/a/up")}}
+	for _, deps := range [][]string{nil, {"/common/base"}} {
+		add("one-target", []decl{b("all", deps...), b("up", "/b/all")}, []decl{b("all", deps...)}, []string{"z/top"}, top)
+		add("one-target", []decl{b("all", deps...), b("up", "/b/all", "all")}, []decl{b("all", deps...)}, []string{"z/chain"}, top)
+	}
+	// the same local name for a helper both packages declare (relative dependency)
+	add("relative-dep", []decl{b("all", "x"), b("x")}, []decl{b("all", "x"), b("x")}, []string{"a/all", "b/all"})
+	add("relative-dep", []decl{b("all", "x"), b("x", "/common/base")}, []decl{b("all", "x"), b("x", "/common/base")}, []string{"b/all", "a/all"})
+	// file sets with the same local name, same and different files; a bundle named like the other package's file set
+	for _, fl := range [][2][]string{{{"/common/s"}, {"/common/s"}}, {{"s"}, {"s"}}, {{"/common/s"}, {"s"}}, {nil, nil}} {
+		for _, t := range subsets([]string{"a/fs", "b/fs"}) {
+			add("file-sets", []decl{f("fs", fl[0])}, []decl{f("fs", fl[1])}, t)
+		}
+		add("file-set-vs-bundle", []decl{f("fs", fl[0])}, []decl{b("fs", fl[1]...)}, []string{"a/fs", "b/fs"})
+		add("file-sets-included", []decl{f("fs", fl[0]), f("both", nil, "a/fs", "b/fs")}, []decl{f("fs", fl[1])}, []string{"a/both"})
+	}
+	// three packages, sub-build package included
+	g.add(&wsOp{dirs: []string{"a", "b"}, srcs: srcs, targets: []string{"a/all", "a/q/all", "b/all"}, files: []bfile{
+		{dir: "a", decls: []decl{{kind: 's', a: []string{"q"}}, b("all")}},
+		{dir: "a/q", decls: []decl{b("all")}}, {dir: "b", decls: []decl{b("all")}}}}, true)
+	g.rep.Count("same-local-name:sub-build")
+}
+
 // random graphs over several packages
 func (g *gen) randomGraphs(n int, maxRules int) {
 	for i := 0; i < n; i++ {
@@ -803,8 +871,17 @@ func (g *gen) randomGraphs(n int, maxRules int) {
 			fs       bool
 		}
 		var rules []rl
+		used := map[string]bool{}
 		for j := 0; j < nr; j++ {
-			rules = append(rules, rl{hx.Pick(g.r, pkgs), ruleName(j), g.r.Intn(4) == 0})
+			r := rl{hx.Pick(g.r, pkgs), ruleName(j), g.r.Intn(4) == 0}
+			// every second graph: local names are shared between packages
+			if (i/2)%2 == 0 && j > 0 && g.r.Bool() {
+				if o := rules[g.r.Intn(j)]; !used[r.pkg+"/"+o.name] {
+					r.name = o.name
+				}
+			}
+			used[r.pkg+"/"+r.name] = true
+			rules = append(rules, r)
 		}
 		mode := g.r.Intn(10) // 0 dup, 1 long cycle, 2 dangling, 3 out collision, 4 empty name, else DAG-ish
 		full := func(r rl) string { return "/" + r.pkg + "/" + r.name }
@@ -1060,6 +1137,7 @@ func main() {
 			}
 		}
 		g.subBuilds()
+		g.sameLocalNames(f.Thorough())
 		g.shapes()
 		g.longChains()
 		if f.Thorough() {
